@@ -20,7 +20,7 @@ def c02(tier):
         Harness('VHarnessAmountChecked', 'cashu', ['cashu/zz_verif_cashu.go'], bounds='<= 4 outputs, amounts full 64 bit', must_reach=('ok', 'overflow')),
     ]
 
-MINT_FILES = ['mint/zz_verif_env.go', 'mint/zz_verif_swap.go', 'mint/zz_verif_melt.go', 'mint/zz_verif_quotes.go', 'mint/storage/sqlite/zz_verif_db.go']
+MINT_FILES = ['mint/zz_verif_env.go', 'mint/zz_verif_swap.go', 'mint/zz_verif_melt.go', 'mint/zz_verif_quotes.go', 'mint/zz_verif_minttokens.go', 'mint/zz_verif_query.go', 'mint/storage/sqlite/zz_verif_db.go']
 MINT_MODELS = ('std', 'crypto', 'json', 'sql', 'mint')
 MINT_ASSUME = COMMON_ASSUME + [
     'keysets of the harness mint hold the denominations {1, 2, 2^63} only (the 60-entry tables are cut; the arithmetic kernels are checked at full width separately)',
@@ -37,7 +37,36 @@ def c01(tier):
     return [mint_h('VHarnessSwapC01', 'swap: <= 2 inputs, <= 1 output, every field free; 2 proofs + 1 pending + 1 blind_signatures arbitrary rows',
                    must_reach=('swap-accepted', 'swap-rejected'))]
 
+def c03(tier):
+    return [mint_h('VHarnessMintTokensC03', 'mint: quote in any state, optional NUT-20 lock, <= 2 free outputs, 6 signature variants, 1 arbitrary blind_signatures row',
+                   must_reach=('mint-accepted', 'mint-rejected'))]
+
+def c06(tier):
+    kw = dict(panic_mode='obligation')
+    return [
+        mint_h('VHarnessSwapC06', 'swap: <= 2 inputs (genuine or free), <= 2 free outputs; 1+1+1 arbitrary rows', must_reach=('swap-accepted', 'swap-rejected'), **kw),
+        mint_h('VHarnessMintTokensC06', 'mint: quote in any state, <= 2 free outputs, 6 signature variants', must_reach=('mint-accepted', 'mint-rejected'), **kw),
+        mint_h('VHarnessMeltC06', 'melt: 1..2 genuine inputs, scripted backend <= 2 answers', must_reach=('melt-no-payment',), **kw),
+        mint_h('VHarnessMintQuoteC06', 'mint quote: arbitrary amount/unit/limits', must_reach=('mint-quote-accepted', 'mint-quote-refused'), **kw),
+        mint_h('VHarnessMeltQuoteC06', 'melt quote: real invoice or garbage, optional MPP', must_reach=('melt-quote-accepted', 'melt-quote-refused'), **kw),
+        mint_h('VHarnessQueryC06', 'checkstate / restore: 0..2 arbitrary entries; 2+1+2 arbitrary rows', must_reach=('checkstate-ok', 'restore-ok'), **kw),
+    ]
+def c15(tier):
+    return [
+        mint_h('VHarnessQueryC15', 'checkstate / restore: 0..2 arbitrary entries; 2 spent + 1 pending + 2 signature arbitrary rows', must_reach=('checkstate-ok', 'restore-ok')),
+        mint_h('VHarnessSwapC15', 'swap then checkstate + restore: <= 2 inputs, <= 2 outputs', must_reach=('swap-accepted',)),
+    ]
+def c16(tier):
+    return [
+        mint_h('VHarnessMintQuoteC16', 'mint quote: amount/limits full 64 bit; ledger of 2 signature rows + 1 spent row (amounts < 2^63)', must_reach=('mint-quote-accepted', 'mint-quote-refused')),
+        mint_h('VHarnessMeltQuoteC16', 'melt quote: invoice < 2^50 msat, optional MPP, melt limit full 64 bit', must_reach=('melt-quote-accepted', 'melt-quote-refused')),
+    ]
+
 PROPS = {
+    'C06': dict(harnesses=c06, level='bounded symbolic verification: failure atomicity (whole-database comparison) and implicit-panic obligations on every path', assumptions=MINT_ASSUME, outside=[]),
+    'C15': dict(harnesses=c15, level='bounded symbolic verification', assumptions=MINT_ASSUME, outside=[]),
+    'C16': dict(harnesses=c16, level='bounded symbolic verification', assumptions=MINT_ASSUME, outside=[]),
+    'C03': dict(harnesses=c03, level='bounded symbolic verification', assumptions=MINT_ASSUME, outside=[]),
     'C01': dict(harnesses=c01, level='bounded symbolic verification: one-step inductive check from an arbitrary database state', assumptions=MINT_ASSUME, outside=[]),
     'C14': dict(harnesses=c14, level='bounded symbolic verification of DecodeToken/accessors (panic obligations) and of the V3/V4 round trip over the structural JSON/CBOR model',
                 assumptions=COMMON_ASSUME, outside=['fidelity of encoding/json and fxamacker/cbor themselves']),
